@@ -18,6 +18,7 @@ fn main() {
     );
     let mut cw = CaseWriter::new("RV.Corr.C12_run RV.Model.C12_Track", "check");
     let alpha = Alphabet::new();
+    run_boundary(&alpha, &mut report, &mut cw);
     let root = Rng::new(args.seed);
     let cfg = GenCfg {
         max_len: 50, w_get: 20, w_set: 22, w_remove: 10, w_scan_keys: 3, w_drain: 5, w_scan_sorted: 3, w_info: 3,
